@@ -556,6 +556,50 @@ Definition tkv_node (b : bnode) : Prop :=
   end.
 Definition tkv_n (n : node) : Prop := match n with NB b => tkv_node b | _ => True end.
 
+(* the reference (list) meaning of a node and of a chain of nodes, and of join-free steps *)
+Definition dnode (b : bnode) (rows : list val) : list val :=
+  match b with
+  | BStateless ops => sem_ops ops rows
+  | BGroupByKey _ _ => d_group_by_key rows
+  | BCombineValues cb _ _ _ false => d_combine_values cb rows
+  | BCombineValues cb _ _ _ true => d_combine_values_grouped cb rows
+  | BCombineGlobal cb _ _ _ _ => d_combine_globally cb rows
+  | BSource _ | BMaterialized _ _ => rows
+  end.
+Definition dchain (bs : list bnode) (rows : list val) : list val :=
+  fold_left (fun r b => dnode b r) bs rows.
+Definition djf (steps : list step) (rows : list val) : list val :=
+  fold_left (fun r st => dstep st r) steps rows.
+
+Lemma denote_steps_cons : forall fuel st rest rows,
+    nojoin st -> denote_steps (S fuel) (st :: rest) rows = denote_steps fuel rest (dstep st rows).
+Proof. intros fuel st rest rows H. destruct st; try contradiction; reflexivity. Qed.
+
+Lemma denote_steps_djf : forall steps fuel rows,
+    length steps <= fuel -> Forall nojoin steps -> denote_steps fuel steps rows = djf steps rows.
+Proof.
+  induction steps as [|st r IH]; intros fuel rows Hlen Hnj.
+  - apply denote_steps_nil.
+  - inversion Hnj as [|? ? Hst Hr]; subst.
+    destruct fuel as [|fuel]; [cbn [length] in Hlen; lia|]. cbn [length] in Hlen.
+    rewrite denote_steps_cons by exact Hst. unfold djf. cbn [fold_left]. apply IH; [lia|exact Hr].
+Qed.
+
+Lemma denote_steps_app : forall pre fuel rest rows,
+    Forall nojoin pre ->
+    denote_steps (length pre + fuel) (pre ++ rest) rows = denote_steps fuel rest (djf pre rows).
+Proof.
+  induction pre as [|st r IH]; intros fuel rest rows Hnj; [reflexivity|].
+  inversion Hnj as [|? ? Hst Hr]; subst.
+  cbn [length app Nat.add]. rewrite denote_steps_cons by exact Hst.
+  unfold djf. cbn [fold_left]. apply IH. exact Hr.
+Qed.
+
+Lemma denote_steps_join : forall f k rs rd post rows,
+    denote_steps (S f) (SJoin k rs rd :: post) rows
+    = denote_steps f post (d_join k rows (denote_steps f rs rd)).
+Proof. reflexivity. Qed.
+
 Lemma classify_ew : forall t c st t' c',
     elementwise_step st = true -> classify_step t c st = Some (t', c') ->
     step_type t st = Some t' /\ c' = c.
@@ -576,7 +620,8 @@ Qed.
 Lemma cstep_cls : forall s st t c t' c',
     classify_step t c st = Some (t', c') -> cs_tag s = t ->
     exists b, cs_chain (cstep s st) = cs_chain s ++ [NB b] /\ node_cls t c b t' c' /\
-              cs_tag (cstep s st) = t' /\ tkv_node b.
+              cs_tag (cstep s st) = t' /\ tkv_node b /\
+              (forall rows, dnode b rows = dstep st rows).
 Proof.
   intros s st t c t' c' H Ht.
   destruct (elementwise_step st) eqn:Hew.
@@ -585,10 +630,12 @@ Proof.
     destruct (cop_tags t (cs_uid s) st t' Hew Hty) as [Hin Hout].
     exists (BStateless [cop (cs_tag s) (cs_uid s) st]).
     unfold cstep. rewrite (compile_steps_ew_step 0 st [] s Hew). cbn [compile_steps cs_chain cs_tag].
-    rewrite Ht. split; [reflexivity|]. split; [|split; [exact Hout|exact I]].
-    apply nc_stateless.
-    + constructor; [apply cop_ew; exact Hew|constructor].
-    + cbn [tags_ok]. rewrite Hin, Nat.eqb_refl, Hout. reflexivity.
+    rewrite Ht. split; [reflexivity|]. split; [|split; [exact Hout|split; [exact I|]]].
+    + apply nc_stateless.
+      * constructor; [apply cop_ew; exact Hew|constructor].
+      * cbn [tags_ok]. rewrite Hin, Nat.eqb_refl, Hout. reflexivity.
+    + intros rows. cbn [dnode]. unfold sem_ops. cbn [fold_left]. unfold step_list.
+      rewrite (cop_fn _ _ st rows Hew). reflexivity.
   - destruct st as [f|p|g|f| |f|p|f|p|f|n b|n b| |cb|cb|cb lf fo| | |k| |k rs rd|sd h|sd q|prs dflt|f p];
       try discriminate Hew; cbn [classify_step] in H; try discriminate H.
     + (* SMapBatches with a non element-wise function *)
@@ -598,29 +645,30 @@ Proof.
       destruct c; [|discriminate H].
       destruct (Nat.eqb t TKV) eqn:E; [|discriminate H]. apply Nat.eqb_eq in E.
       inversion H; subst. eexists. unfold cstep. cbn [compile_steps push_node cs_chain cs_tag].
-      split; [reflexivity|]. split; [apply nc_gbk|]. split; reflexivity.
+      split; [reflexivity|]. split; [apply nc_gbk|].
+      split; [reflexivity|split; [reflexivity|intros rows; reflexivity]].
     + (* SCombineValues *)
       destruct (Nat.eqb t TKV) eqn:E; [|discriminate H]. apply Nat.eqb_eq in E.
       destruct (cid_functional cb) eqn:Ef; [|discriminate H]. cbn [andb] in H.
       inversion H; subst. eexists. unfold cstep. cbn [compile_steps push_node cs_chain cs_tag].
       split; [reflexivity|]. split; [apply nc_cv_pairs; apply cid_lawful; exact Ef|].
-      split; reflexivity.
+      split; [reflexivity|split; [reflexivity|intros rows; reflexivity]].
     + (* SCombineValuesLifted *)
       destruct (Nat.eqb t TKG) eqn:E; [|discriminate H]. apply Nat.eqb_eq in E.
       destruct (cid_functional cb) eqn:Ef; [|discriminate H]. cbn [andb] in H.
       inversion H; subst. eexists. unfold cstep. cbn [compile_steps push_node cs_chain cs_tag].
       split; [reflexivity|]. split; [apply nc_cv_groups; apply cid_lawful; exact Ef|].
-      split; reflexivity.
+      split; [reflexivity|split; [reflexivity|intros rows; reflexivity]].
     + (* SCombineGlobally *)
       destruct (cid_functional cb) eqn:Ef; [|discriminate H].
       inversion H; subst. eexists. unfold cstep. cbn [compile_steps push_node cs_chain cs_tag].
       split; [reflexivity|]. split; [apply nc_cg; apply cid_lawful; exact Ef|].
-      split; [reflexivity|exact I].
+      split; [reflexivity|split; [exact I|intros rows; reflexivity]].
     + (* STopKPerKey *)
       destruct (Nat.eqb t TKV) eqn:E; [|discriminate H]. apply Nat.eqb_eq in E.
       inversion H; subst. eexists. unfold cstep. cbn [compile_steps push_node cs_chain cs_tag].
       split; [reflexivity|]. split; [apply nc_cv_pairs; apply topk_lawful|].
-      split; reflexivity.
+      split; [reflexivity|split; [reflexivity|intros rows; reflexivity]].
 Qed.
 
 Lemma classify_step_nojoin : forall t c st x, classify_step t c st = Some x -> nojoin st.
@@ -637,18 +685,21 @@ Qed.
 Lemma cjf_cls : forall steps s t c t' c',
     classify_steps t c steps = Some (t', c') -> cs_tag s = t ->
     exists bs, cs_chain (cjf steps s) = cs_chain s ++ map NB bs /\ chain_cls t c bs t' c' /\
-               cs_tag (cjf steps s) = t' /\ Forall tkv_node bs.
+               cs_tag (cjf steps s) = t' /\ Forall tkv_node bs /\
+               (forall rows, dchain bs rows = djf steps rows).
 Proof.
   induction steps as [|st r IH]; intros s t c t' c' H Ht.
   - cbn [classify_steps] in H. inversion H; subst. exists []. cbn [cjf map].
-    rewrite app_nil_r. split; [reflexivity|]. split; [apply cc_nil|]. split; [reflexivity|constructor].
+    rewrite app_nil_r. split; [reflexivity|]. split; [apply cc_nil|].
+    split; [reflexivity|split; [constructor|intros rows; reflexivity]].
   - cbn [classify_steps] in H.
     destruct (classify_step t c st) as [[t1 c1]|] eqn:E; [|discriminate H].
-    destruct (cstep_cls s st t c t1 c1 E Ht) as (b & Hch & Hn & Htag & Hkv).
-    destruct (IH (cstep s st) t1 c1 t' c' H Htag) as (bs & Hch' & Hcls & Htag' & Hkvs).
+    destruct (cstep_cls s st t c t1 c1 E Ht) as (b & Hch & Hn & Htag & Hkv & Hd).
+    destruct (IH (cstep s st) t1 c1 t' c' H Htag) as (bs & Hch' & Hcls & Htag' & Hkvs & Hds).
     exists (b :: bs). cbn [cjf map]. rewrite Hch', Hch, <- app_assoc. cbn [app].
     split; [reflexivity|]. split; [eapply cc_cons; eassumption|]. split; [exact Htag'|].
-    constructor; assumption.
+    split; [constructor; assumption|].
+    intros rows. unfold dchain, djf in *. cbn [fold_left]. rewrite Hd. apply Hds.
 Qed.
 
 (* ================= (C) the join shape ================= *)
@@ -753,13 +804,13 @@ Proof.
     destruct Hfuel as (f & Hsz & Hf_rs & Hf_post). rewrite Hsz.
     rewrite (compile_steps_app pre (S f) _ init Hnj_pre), compile_steps_join. cbv zeta.
     (* left side *)
-    destruct (cjf_cls pre init _ _ _ _ Hpre eq_refl) as (bl & Hchl & Hclsl & Htagl & Hkvl).
+    destruct (cjf_cls pre init _ _ _ _ Hpre eq_refl) as (bl & Hchl & Hclsl & Htagl & Hkvl & Hdl).
     cbn [cs_chain init app] in Hchl.
     (* right side *)
     set (rinit := {| cs_chain := [NB (BSource (vec_source TKV rd))]; cs_tag := TKV;
                      cs_uid := cs_uid (cjf pre init) + 50 |}).
     rewrite (compile_steps_cjf rs f rinit Hf_rs Hnj_rs).
-    destruct (cjf_cls rs rinit _ _ _ _ Hrs eq_refl) as (br & Hchr & Hclsr & Htagr & Hkvr).
+    destruct (cjf_cls rs rinit _ _ _ _ Hrs eq_refl) as (br & Hchr & Hclsr & Htagr & Hkvr & Hdr).
     cbn [cs_chain rinit app] in Hchr.
     (* after the join *)
     set (jinit := {| cs_chain := [NB (BSource (vec_source TDUMMY [VInt 0%Z]));
@@ -771,7 +822,7 @@ Proof.
                                                          (cs_uid (cjf rs rinit))])];
                      cs_tag := TKV; cs_uid := S (cs_uid (cjf rs rinit)) |}).
     rewrite (compile_steps_cjf post f jinit Hf_post Hnj_post).
-    destruct (cjf_cls post jinit _ _ _ _ H eq_refl) as (bp & Hchp & Hclsp & Htagp & Hkvp).
+    destruct (cjf_cls post jinit _ _ _ _ H eq_refl) as (bp & Hchp & Hclsp & Htagp & Hkvp & Hdp).
     rewrite Hchp, Htagp. cbn [cs_chain jinit]. rewrite Hchl, Hchr, Htagl, Htagr.
     rewrite src_node_source. cbn [map to_snode app]. rewrite !to_snode_NB.
     change (NB (BStateless [op_map (join_tag k) TKV join_norm (cs_uid (cjf rs rinit))])
@@ -794,11 +845,99 @@ Proof.
     pose proof (classify_steps_nojoin _ _ _ _ H) as Hnj.
     pose proof (steps_size_length steps) as Hsz.
     rewrite (compile_steps_cjf steps (steps_size steps) init) by (try lia; exact Hnj).
-    destruct (cjf_cls steps init _ _ _ _ H eq_refl) as (bs & Hch & Hcls & Htag & Hkv).
+    destruct (cjf_cls steps init _ _ _ _ H eq_refl) as (bs & Hch & Hcls & Htag & Hkv & Hd).
     cbn [cs_chain init app] in Hch. rewrite Hch, Htag, src_node_source.
     split; [|split; [reflexivity|]].
     + apply pc_linear; [apply src_source_coherent|]. rewrite src_source_tag. exact Hcls.
     + constructor; [exact I|]. apply tkv_map_NB. exact Hkv.
+Qed.
+
+(* the same analysis, keeping the node lists: the compiled chain is a source followed by a
+   classified chain whose list meaning is `denote`, or the join shape *)
+Inductive prog_shape (s : src) (steps : list step) (t : tag) (c : cls) : Prop :=
+| shape_linear : forall bs,
+    cs_chain (compile s steps) = NB (BSource (src_source s)) :: map NB bs ->
+    chain_cls (src_tag s) E bs t c ->
+    denote s steps = dchain bs (src_data s) ->
+    prog_shape s steps t c
+| shape_join : forall k rd u bl br bp cl cr,
+    cs_chain (compile s steps)
+    = NB (BSource (vec_source TDUMMY [VInt 0%Z]))
+      :: NCoGroup (SB (BSource (src_source s)) :: map SB bl)
+                  (SB (BSource (vec_source TKV rd)) :: map SB br) k TKV TKV (join_tag k)
+      :: map NB (BStateless [op_map (join_tag k) TKV join_norm u] :: bp) ->
+    chain_cls (src_tag s) E bl TKV cl -> chain_cls TKV E br TKV cr -> chain_cls TKV P bp t c ->
+    denote s steps = dchain bp (d_join k (dchain bl (src_data s)) (dchain br rd)) ->
+    prog_shape s steps t c.
+
+Lemma classified_shape : forall s steps t c,
+    classify s steps = Some (t, c) -> prog_shape s steps t c.
+Proof.
+  intros s steps t c H. unfold classify in H.
+  set (init := {| cs_chain := [src_node s]; cs_tag := src_tag s; cs_uid := uid_base |}).
+  destruct (split_at_join steps) as [pre j] eqn:Hsplit.
+  pose proof (split_at_join_spec steps pre j Hsplit) as Hspec.
+  destruct j as [[[[k rs] rd] post]|].
+  - subst steps.
+    destruct (classify_steps (src_tag s) E pre) as [[tl cl]|] eqn:Hpre; [|discriminate H].
+    destruct (classify_steps TKV E rs) as [[tr cr]|] eqn:Hrs; [|discriminate H].
+    destruct (Nat.eqb tl TKV) eqn:Etl; [|discriminate H]. apply Nat.eqb_eq in Etl. subst tl.
+    destruct (Nat.eqb tr TKV) eqn:Etr; [|discriminate H]. apply Nat.eqb_eq in Etr. subst tr.
+    cbn [andb] in H.
+    pose proof (classify_steps_nojoin _ _ _ _ Hpre) as Hnj_pre.
+    pose proof (classify_steps_nojoin _ _ _ _ Hrs) as Hnj_rs.
+    pose proof (classify_steps_nojoin _ _ _ _ H) as Hnj_post.
+    assert (Hfuel : exists f, steps_size (pre ++ SJoin k rs rd :: post) = length pre + S f /\
+                              length rs <= f /\ length post <= f).
+    { rewrite steps_size_ssum, ssum_app.
+      change (ssum (SJoin k rs rd :: post)) with (step_size (SJoin k rs rd) + ssum post).
+      rewrite step_size_join.
+      pose proof (ssum_ge_length pre). pose proof (ssum_ge_length rs).
+      pose proof (ssum_ge_length post).
+      exists (ssum pre - length pre + S (ssum rs) + ssum post). lia. }
+    destruct Hfuel as (f & Hsz & Hf_rs & Hf_post).
+    destruct (cjf_cls pre init _ _ _ _ Hpre eq_refl) as (bl & Hchl & Hclsl & Htagl & Hkvl & Hdl).
+    cbn [cs_chain init app] in Hchl.
+    set (rinit := {| cs_chain := [NB (BSource (vec_source TKV rd))]; cs_tag := TKV;
+                     cs_uid := cs_uid (cjf pre init) + 50 |}).
+    destruct (cjf_cls rs rinit _ _ _ _ Hrs eq_refl) as (br & Hchr & Hclsr & Htagr & Hkvr & Hdr).
+    cbn [cs_chain rinit app] in Hchr.
+    set (jinit := {| cs_chain := [NB (BSource (vec_source TDUMMY [VInt 0%Z]));
+                                  NCoGroup (map to_snode (cs_chain (cjf pre init)))
+                                           (map to_snode (cs_chain (cjf rs rinit))) k
+                                           (cs_tag (cjf pre init)) (cs_tag (cjf rs rinit))
+                                           (join_tag k);
+                                  NB (BStateless [op_map (join_tag k) TKV join_norm
+                                                         (cs_uid (cjf rs rinit))])];
+                     cs_tag := TKV; cs_uid := S (cs_uid (cjf rs rinit)) |}).
+    destruct (cjf_cls post jinit _ _ _ _ H eq_refl) as (bp & Hchp & Hclsp & Htagp & Hkvp & Hdp).
+    apply (shape_join s _ t c k rd (cs_uid (cjf rs rinit)) bl br bp cl cr).
+    + unfold compile. fold init. rewrite Hsz.
+      rewrite (compile_steps_app pre (S f) _ init Hnj_pre), compile_steps_join. cbv zeta.
+      fold rinit. rewrite (compile_steps_cjf rs f rinit Hf_rs Hnj_rs). fold jinit.
+      rewrite (compile_steps_cjf post f jinit Hf_post Hnj_post).
+      rewrite Hchp. cbn [cs_chain jinit]. rewrite Hchl, Hchr, Htagl, Htagr.
+      rewrite src_node_source. cbn [map to_snode app]. rewrite !to_snode_NB. reflexivity.
+    + exact Hclsl.
+    + exact Hclsr.
+    + exact Hclsp.
+    + unfold denote. rewrite Hsz.
+      rewrite (denote_steps_app pre (S f) _ _ Hnj_pre), denote_steps_join.
+      rewrite (denote_steps_djf rs f rd Hf_rs Hnj_rs).
+      rewrite (denote_steps_djf post f _ Hf_post Hnj_post).
+      rewrite Hdp, Hdl, Hdr. reflexivity.
+  - subst pre.
+    pose proof (classify_steps_nojoin _ _ _ _ H) as Hnj.
+    pose proof (steps_size_length steps) as Hsz.
+    destruct (cjf_cls steps init _ _ _ _ H eq_refl) as (bs & Hch & Hcls & Htag & Hkv & Hd).
+    cbn [cs_chain init app] in Hch.
+    apply (shape_linear s steps t c bs).
+    + unfold compile. fold init.
+      rewrite (compile_steps_cjf steps (steps_size steps) init) by (try lia; exact Hnj).
+      rewrite Hch, src_node_source. reflexivity.
+    + exact Hcls.
+    + unfold denote. rewrite (denote_steps_djf steps (steps_size steps)) by (try lia; exact Hnj).
+      symmetry. apply Hd.
 Qed.
 
 Lemma classified_program_in_fragment : forall s steps t c,
